@@ -22,6 +22,7 @@ class MChild:
         self.ctype = ctype
         self.desc = desc
         self.values = values if values is not None else []  # alist type -> payload
+        self.values_alt = None  # alternative acceptable values (statement leaves it open)
 
 
 class MNode:
@@ -127,7 +128,13 @@ def _step(st, n, c, cmd, ack, t, p, writes, now, conv, fail_write):
             return Outcome("msg")
         if node is None:
             return _missing(st, n, "MissingNodeError", n, writes, fail_write)
-        aset(node.children, c, MChild(c, t, p))
+        prev = aget(node.children, c)
+        fresh = MChild(c, t, p)
+        if prev is not None and len(prev.values) > 0:
+            # "adds or replaces that child with its type and description": whether values recorded
+            # for the replaced child survive is not stated - either is accepted
+            fresh.values_alt = prev.values
+        aset(node.children, c, fresh)
         return Outcome("msg")
     if cmd == 1 or cmd == 2:
         if node is None:
